@@ -110,6 +110,9 @@ func (fx *fnExec) ghostSort(ty string) string {
 		return SInt
 	case "str":
 		return SStr
+	case "flt":
+		fx.needFlt()
+		return SFlt
 	case "IntMap":
 		return arrSort(SInt, SInt)
 	case "BoolMap", "RefBoolMap":
